@@ -1055,10 +1055,10 @@ def points_declined_rule(chk, P, key):
                         while x[0] in ("cast", "copy", "unop"):
                             x = x[1] if x[0] != "unop" else x[2]
                         vs = tuple(str(v) for v in (vals if isinstance(vals, (list, tuple)) else (vals,)))
-                        if x[0] == "call" and x[1].callee.get("name") == "len" and vs == ("0",):
-                            empty_seen = True
-                        elif x[0] == "call" and x[1].callee.get("name") == "is_empty" and "0" not in vs:
-                            empty_seen = True
+                        if x[0] == "call" and x[1].callee.get("name") == "len":
+                            empty_seen = empty_seen or vs == ("0",)      # any test of the count is about emptiness; only its zero edge establishes it
+                        elif x[0] == "call" and x[1].callee.get("name") == "is_empty":
+                            empty_seen = empty_seen or "0" not in vs
                         elif x[0] == "binop" and x[1] == "Eq" and any(y[0] in ("call", "cast") and "len" in mir.o_str(y) for y in (x[2], x[3])) \
                                 and any(mir.o_const_value(y) == 0 for y in (x[2], x[3])) and "0" not in vs:
                             empty_seen = True
